@@ -127,8 +127,11 @@ func histories(cf cfgSpec, gv *genesisVariant, thorough bool) []history {
 			add("revoke-pillar", cat(rep(M, 3), []ops.Op{{K: "c05-revoke", A: 11, S: g.Pillar2Name}}, tail(3)))
 		}
 	}
+	// quick: single changes at every position, mock genesis, short ticks; thorough: everything
 	if thorough {
-		hs = append(hs, systematic(cf, alt)...)
+		hs = append(hs, systematic(cf, alt, true)...)
+	} else if gv.cfg == nil && cf.NodeCount <= 4 {
+		hs = append(hs, systematic(cf, alt, false)...)
 	}
 	return hs
 }
@@ -152,7 +155,7 @@ var changes = []change{
 
 // systematic: every change at every slot position of the first two ticks (long ticks: around the tick boundaries only),
 // and every ordered pair of distinct changes at the positions (last slot of tick 0, first slot of tick 1).
-func systematic(cf cfgSpec, alt []ops.Op) []history {
+func systematic(cf cfgSpec, alt []ops.Op, pairs bool) []history {
 	n := cf.NodeCount
 	var positions []int
 	if n <= 4 {
@@ -180,7 +183,7 @@ func systematic(cf cfgSpec, alt []ops.Op) []history {
 			hs = append(hs, mk(fmt.Sprintf("%s@%d", ch.Name, p), at, p+2))
 		}
 	}
-	if n <= 4 {
+	if n <= 4 && pairs {
 		for _, c1 := range changes {
 			for _, c2 := range changes {
 				if c1.Name == c2.Name {
